@@ -4,7 +4,7 @@ from . import ratfun, term as T
 
 
 def P(i, name):
-    return ("p", i, name)
+    return T.P(i, name)
 
 
 def app(name, *args, tag=None):
